@@ -113,7 +113,7 @@ CLAIMED["C15"] = {
 
 CLAIMED["C04"] = {
     "text": "Lean theorems over the evaluator model (mutual fuel recursion mirroring evaluate_expression / evaluate_assignment / evaluate_assignments): only the taken branch of if / && / || is evaluated and assert's message only on failure - the result equations do not mention the untaken expression at all (value, error, backtick log, bindings); + and / are concatenations; dry-run shows backticks unevaluated; override_irrelevant / override_skips_expression: with a variable overridden on the command line the WHOLE evaluation of the module (every value, the backtick log, the outcome) is the same whatever expression the justfile gives that variable - proved by simultaneous induction over all three evaluator functions; each_assignment_once: for every acyclically ranked table (what the resolver guarantees), any overrides, child behaviour and fuel, successful or failing, no assignment's expression starts evaluating twice (invariant: logged names are bound or rank above the current expression; new names rank below it and end up bound); the proved witness that the pinned lookup order made `A := HEX` and `Z := HEX` disagree (repaired by a fix: commit). Correspondence: random assignment sets over every expression form and 20 concrete functions, names unrelated to the dependency order (lazy forward evaluation), user variables named like constants, overrides by NAME=VALUE and --set, failing backticks; values and the ordered backtick log against the model; direct oracles: no backtick twice, overridden expressions never run, no internal error, same result with the assignments written in reverse order, submodule assignments once per invocation, parameter defaults only when omitted.",
-    "note": "Partial: about fifty built-in functions (paths, hashes, heck case conversions, datetime, uuid, semver, file access) are outside the concrete set and not generated; regex operators only with literal patterns; ASCII letters/whitespace; string-literal cooking and unindent are not yet modelled (exercised only through the binary's own parser). Trusted: Lean kernel; Eval model (tied by the differential run).",
+    "note": "Partial: about fifty built-in functions (paths, hashes, heck case conversions, datetime, uuid, semver, file access) are outside the concrete set and not generated; regex operators only with literal patterns; ASCII letters/whitespace; string-literal cooking and unindent are modelled in C11 (Just.Cook, Just.Unindent), the evaluator model takes cooked strings. Trusted: Lean kernel; Eval model (tied by the differential run).",
     "technique": "Lean 4 proof (non-interference by simultaneous induction) + differential correspondence of values and backtick logs",
     "design": "4/C04",
 }
@@ -126,7 +126,7 @@ CLAIMED["C12"] = {
 }
 
 CLAIMED["C11"] = {
-    "text": "PARTIAL proof. Lean theorems over the lexer port (the component the property's assert/internal_error anchors live in): lexer_no_internal_error - for EVERY text tokenize returns tokens or an ordinary diagnostic: no internal_error site is reachable (advance past end, presume, Lexer::error fallback, invalid string start, empty interpolation stack, non-delimiter), by Hoare-style reasoning over the model (every advance/presume guarded by what the dispatch looked at, string scanner keeps `lexeme starts with its delimiter`, body scanner stops on text that is still there, advance_n within the leading white space); NONE of the lexer's four assert_eq!s can fail on any text (lex_dedent's current_token_length()==0 and the three at the end of tokenize), proved through loop invariants - idle at every loop head, indentation stack = empty string under non-empty strings, no text left at loop exit - lifted through all lexing functions by four small calculi (ends-idle, keeps-idle, keeps-stack, not-an-assert-error); byte-offset slicing never leaves the text at the three sites the property names: Token::lexeme (every token's slice is a run of whole characters of the source), unindent (the common indentation is a prefix of every line that is sliced and consists of spaces/tabs only - model of src/unindent.rs tied by an exhaustive differential), run_linewise's sigil strip (the stripped bytes are the leading @/- of the evaluated text); the main loop of Lexer::tokenize terminates on EVERY text - each round that continues consumes at least one character in normal, body and interpolation mode, for every lexer state, so the model's fuel (length+1) is never exhausted; no lexing function un-reads text; the diagnostic printer's `invalid line number` internal error is unreachable for every lexer error. The model turns each assert_eq!/internal_error site into an explicit Internal result, so sources on which the model says Internal are predicted crashes (this is how the backslash-at-EOF panic was found and fixed). Everything else is enumeration, not proof: in-process lex+compile (parse, analyze, dump, format) under catch_unwind of ~40k (quick) / ~500k (thorough) enumerated, random and mutated sources compared with the model; unindent on all strings <=7 (8) over a whitespace alphabet incl. form feed/NBSP; 31 constructs nested or chained 256/1000/30000(/100000) times; ~1900 command lines over 45 option templates x 43 hostile operands; all 73 built-in functions with hostile arguments; every parameter-list shape of length <=3 x 0..3 arguments x direct/dependency calls; 29 recipe-line shapes (sigils, shebangs, continuations) x 4 attribute/setting contexts.",
+    "text": "PARTIAL proof. Lean theorems over the lexer port (the component the property's assert/internal_error anchors live in): lexer_no_internal_error - for EVERY text tokenize returns tokens or an ordinary diagnostic: no internal_error site is reachable (advance past end, presume, Lexer::error fallback, invalid string start, empty interpolation stack, non-delimiter), by Hoare-style reasoning over the model (every advance/presume guarded by what the dispatch looked at, string scanner keeps `lexeme starts with its delimiter`, body scanner stops on text that is still there, advance_n within the leading white space); NONE of the lexer's four assert_eq!s can fail on any text (lex_dedent's current_token_length()==0 and the three at the end of tokenize), proved through loop invariants - idle at every loop head, indentation stack = empty string under non-empty strings, no text left at loop exit - lifted through all lexing functions by four small calculi (ends-idle, keeps-idle, keeps-stack, not-an-assert-error); byte-offset slicing never leaves the text at the three sites the property names: Token::lexeme (every token's slice is a run of whole characters of the source), unindent (the common indentation is a prefix of every line that is sliced and consists of spaces/tabs only - model of src/unindent.rs tied by an exhaustive differential), run_linewise's sigil strip (the stripped bytes are the leading @/- of the evaluated text); cook_unwrap_safe: the from_str_radix(..).unwrap() of \\u{..} escapes cannot fail on any string (model of cook_string tied by a differential over ~14k literals incl. surrogate and out-of-range escapes, indented strings); the main loop of Lexer::tokenize terminates on EVERY text - each round that continues consumes at least one character in normal, body and interpolation mode, for every lexer state, so the model's fuel (length+1) is never exhausted; no lexing function un-reads text; the diagnostic printer's `invalid line number` internal error is unreachable for every lexer error. The model turns each assert_eq!/internal_error site into an explicit Internal result, so sources on which the model says Internal are predicted crashes (this is how the backslash-at-EOF panic was found and fixed). Everything else is enumeration, not proof: in-process lex+compile (parse, analyze, dump, format) under catch_unwind of ~40k (quick) / ~500k (thorough) enumerated, random and mutated sources compared with the model; unindent on all strings <=7 (8) over a whitespace alphabet incl. form feed/NBSP; 31 constructs nested or chained 256/1000/30000(/100000) times; ~1900 command lines over 45 option templates x 43 hostile operands; all 73 built-in functions with hostile arguments; every parameter-list shape of length <=3 x 0..3 arguments x direct/dependency calls; 29 recipe-line shapes (sigils, shebangs, continuations) x 4 attribute/setting contexts.",
     "note": "Partial: theorems cover the lexer completely (total, no internal error, no assertion failure, located errors) and the three byte-slicing sites; parser/analyzer/evaluator/CLI totality is decided by enumeration (testing). Known findings (recorded, not repaired): stack overflow on long +, /, &&, else-if chains and on long variable / recipe dependency chains; `#!` with empty interpreter reports an internal error. Fixed: backslash at EOF panic (lexer), --show ' ' panic, datetime(\"%Q\") panic, --timestamp-format panic.",
     "technique": "Lean 4 proof (termination by a strict-consumption calculus over the lexer model) + in-process and process-level enumeration for the unmodelled parts",
     "design": "4/C11",
